@@ -69,7 +69,7 @@ macro_rules! seqn_asserts {
 pub fn h_group2<M: VMode, Er: VEr>() {
     run::<u8, Er, (), _>(|inp, s0| {
         let anyp = |k| anyp::<SymIn<u8>, X<Er>>(k);
-        let r = group((anyp(0), anyp(1))).go::<M>(inp);
+        let r = group((anyp(0), anyp(1))).gov::<M>(inp);
         let s = snap(inp);
         let (a, b) = (lg(inp, 0), lg(inp, 1));
         let v = seq_spec(&s0, &s, &[(0, a), (1, b)], r.is_ok(), Er::ZST);
@@ -87,7 +87,7 @@ pub fn h_group2<M: VMode, Er: VEr>() {
 pub fn h_group3<M: VMode, Er: VEr>() {
     run::<u8, Er, (), _>(|inp, s0| {
         let anyp = |k| anyp::<SymIn<u8>, X<Er>>(k);
-        let r = group((anyp(0), anyp(1), anyp(2))).go::<M>(inp);
+        let r = group((anyp(0), anyp(1), anyp(2))).gov::<M>(inp);
         let s = snap(inp);
         let (a, b, c) = (lg(inp, 0), lg(inp, 1), lg(inp, 2));
         let v = seq_spec(&s0, &s, &[(0, a), (1, b), (2, c)], r.is_ok(), Er::ZST);
@@ -107,7 +107,7 @@ pub fn h_delimited_by<M: VMode, Er: VEr>() {
     run::<u8, Er, (), _>(|inp, s0| {
         let anyp = |k| anyp::<SymIn<u8>, X<Er>>(k);
         // slot 0 = open, 1 = inner, 2 = close
-        let r = anyp(1).delimited_by(anyp(0), anyp(2)).go::<M>(inp);
+        let r = anyp(1).delimited_by(anyp(0), anyp(2)).gov::<M>(inp);
         let s = snap(inp);
         let (o, a, c) = (lg(inp, 0), lg(inp, 1), lg(inp, 2));
         let v = seq_spec(&s0, &s, &[(0, o), (1, a), (2, c)], r.is_ok(), Er::ZST);
@@ -126,7 +126,7 @@ pub fn h_padded_by<M: VMode, Er: VEr>() {
     run::<u8, Er, (), _>(|inp, s0| {
         // the padding stub is invoked twice: calls logged in slots 0 and 1; inner in slot 2
         let pad = anyp_multi::<SymIn<u8>, X<Er>>(0, 2);
-        let r = anyp::<SymIn<u8>, X<Er>>(2).padded_by(pad).go::<M>(inp);
+        let r = anyp::<SymIn<u8>, X<Er>>(2).padded_by(pad).gov::<M>(inp);
         let s = snap(inp);
         let (p1, p2, a) = (lg(inp, 0), lg(inp, 1), lg(inp, 2));
         let v = seq_spec(&s0, &s, &[(0, p1), (2, a), (0, p2)], r.is_ok(), Er::ZST);
@@ -203,7 +203,7 @@ macro_rules! choice_asserts {
 pub fn h_choice3<M: VMode, Er: VEr>() {
     run::<u8, Er, (), _>(|inp, s0| {
         let anyp = |k| anyp::<SymIn<u8>, X<Er>>(k);
-        let r = choice((anyp(0), anyp(1), anyp(2))).go::<M>(inp);
+        let r = choice((anyp(0), anyp(1), anyp(2))).gov::<M>(inp);
         let s = snap(inp);
         let (a, b, c) = (lg(inp, 0), lg(inp, 1), lg(inp, 2));
         let (v, chosen) = choice_spec(&s0, &s, &[(0, a), (1, b), (2, c)], r.is_ok(), Er::ZST);
@@ -226,7 +226,7 @@ pub fn h_choice3<M: VMode, Er: VEr>() {
 }
 pub fn h_choice1<M: VMode, Er: VEr>() {
     run::<u8, Er, (), _>(|inp, s0| {
-        let r = choice((anyp::<SymIn<u8>, X<Er>>(0),)).go::<M>(inp);
+        let r = choice((anyp::<SymIn<u8>, X<Er>>(0),)).gov::<M>(inp);
         let s = snap(inp);
         let a = lg(inp, 0);
         let (v, chosen) = choice_spec(&s0, &s, &[(0, a)], r.is_ok(), Er::ZST);
@@ -277,7 +277,7 @@ macro_rules! unary_asserts {
 pub fn h_map<M: VMode, Er: VEr>() {
     run::<u8, Er, (), _>(|inp, s0| {
         let k = ch::any_u16();
-        let r = anyp::<SymIn<u8>, X<Er>>(0).map(move |o: u16| o ^ k).go::<M>(inp);
+        let r = anyp::<SymIn<u8>, X<Er>>(0).map(move |o: u16| o ^ k).gov::<M>(inp);
         let s = snap(inp);
         let a = lg(inp, 0);
         let v = unary_spec(&s0, &s, &a, r.is_ok(), Er::ZST);
@@ -290,7 +290,7 @@ pub fn h_map<M: VMode, Er: VEr>() {
 pub fn h_to<M: VMode, Er: VEr>() {
     run::<u8, Er, (), _>(|inp, s0| {
         let k = ch::any_u16();
-        let r = anyp::<SymIn<u8>, X<Er>>(0).to(k).go::<M>(inp);
+        let r = anyp::<SymIn<u8>, X<Er>>(0).to(k).gov::<M>(inp);
         let s = snap(inp);
         let a = lg(inp, 0);
         let v = unary_spec(&s0, &s, &a, r.is_ok(), Er::ZST);
@@ -302,7 +302,7 @@ pub fn h_to<M: VMode, Er: VEr>() {
 }
 pub fn h_ignored<M: VMode, Er: VEr>() {
     run::<u8, Er, (), _>(|inp, s0| {
-        let r = anyp::<SymIn<u8>, X<Er>>(0).ignored().go::<M>(inp);
+        let r = anyp::<SymIn<u8>, X<Er>>(0).ignored().gov::<M>(inp);
         let s = snap(inp);
         let a = lg(inp, 0);
         let v = unary_spec(&s0, &s, &a, r.is_ok(), Er::ZST);
@@ -311,7 +311,7 @@ pub fn h_ignored<M: VMode, Er: VEr>() {
 }
 pub fn h_to_span<M: VMode, Er: VEr>() {
     run::<u8, Er, (), _>(|inp, s0| {
-        let r = anyp::<SymIn<u8>, X<Er>>(0).to_span().go::<M>(inp);
+        let r = anyp::<SymIn<u8>, X<Er>>(0).to_span().gov::<M>(inp);
         let s = snap(inp);
         let a = lg(inp, 0);
         let v = unary_spec(&s0, &s, &a, r.is_ok(), Er::ZST);
@@ -324,7 +324,7 @@ pub fn h_to_span<M: VMode, Er: VEr>() {
 }
 pub fn h_to_slice<M: VMode, Er: VEr>() {
     run::<u8, Er, (), _>(|inp, s0| {
-        let r = anyp::<SymIn<u8>, X<Er>>(0).to_slice().go::<M>(inp);
+        let r = anyp::<SymIn<u8>, X<Er>>(0).to_slice().gov::<M>(inp);
         let s = snap(inp);
         let a = lg(inp, 0);
         let v = unary_spec(&s0, &s, &a, r.is_ok(), Er::ZST);
@@ -350,7 +350,7 @@ pub fn h_map_with<M: VMode, Er: VEr>() {
                 st.flag[0] = true;
                 o.wrapping_add(1)
             })
-            .go::<M>(inp);
+            .gov::<M>(inp);
         let s = snap(inp);
         let a = lg(inp, 0);
         let v = unary_spec(&s0, &s, &a, r.is_ok(), Er::ZST);
@@ -390,7 +390,7 @@ pub fn h_validate<M: VMode, Er: VEr, const N: usize>() {
                 }
                 o.wrapping_add(1)
             })
-            .go::<M>(inp);
+            .gov::<M>(inp);
         let s = snap(inp);
         let a = lg(inp, 0);
         let st = inp.state();
@@ -417,7 +417,7 @@ pub fn h_validate<M: VMode, Er: VEr, const N: usize>() {
 pub fn h_filter<M: VMode>() {
     run::<u8, VErr, (), _>(|inp, s0| {
         let thr = ch::any_u16();
-        let r = anyp::<SymIn<u8>, X<VErr>>(0).filter(move |o: &u16| *o < thr).go::<M>(inp);
+        let r = anyp::<SymIn<u8>, X<VErr>>(0).filter(move |o: &u16| *o < thr).gov::<M>(inp);
         let s = snap(inp);
         let alt = alt_full(inp);
         let a = lg(inp, 0);
@@ -464,7 +464,7 @@ pub fn h_try_map<M: VMode, Er: VEr>() {
                     Err(Er::mk(77, sp.start, sp.end))
                 }
             })
-            .go::<M>(inp);
+            .gov::<M>(inp);
         let s = snap(inp);
         let a = lg(inp, 0);
         vassert!(a.called && a.calls == 1 && a.entry_pos == s0.pos && a.entry_sec == s0.nsec, "C01/try_map.child-runs-once-from-entry-state");
@@ -515,7 +515,7 @@ pub fn h_try_map_with<M: VMode, Er: VEr>() {
                     Err(Er::mk(77, sp.start, sp.end))
                 }
             })
-            .go::<M>(inp);
+            .gov::<M>(inp);
         let s = snap(inp);
         let a = lg(inp, 0);
         let st = inp.state();
@@ -559,9 +559,9 @@ pub fn h_choice_arr<M: VMode, Er: VEr, const KIND: usize>() {
         let anyp = |k| anyp::<SymIn<u8>, X<Er>>(k);
         let alts = [anyp(0), anyp(1), anyp(2)];
         let r = match KIND {
-            0 => choice(alts).go::<M>(inp),
-            1 => choice(&alts[..]).go::<M>(inp),
-            _ => choice(alts.to_vec()).go::<M>(inp),
+            0 => choice(alts).gov::<M>(inp),
+            1 => choice(&alts[..]).gov::<M>(inp),
+            _ => choice(alts.to_vec()).gov::<M>(inp),
         };
         let s = snap(inp);
         let (a, b, c) = (lg(inp, 0), lg(inp, 1), lg(inp, 2));
@@ -586,7 +586,7 @@ pub fn h_choice_arr<M: VMode, Er: VEr, const KIND: usize>() {
 pub fn h_choice_empty<M: VMode>() {
     run::<u8, VS, (), _>(|inp, s0| {
         let alts: [AnyP<SymIn<u8>, X<VS>>; 0] = [];
-        let r = choice(&alts[..]).go::<M>(inp);
+        let r = choice(&alts[..]).gov::<M>(inp);
         let s = snap(inp);
         vcover!(true, "choice_dyn: empty");
         vassert!(r.is_err() && s.pos == s0.pos && s.nsec == s0.nsec, "C01/choice_dyn.empty-choice-fails-consuming-nothing");
